@@ -87,6 +87,12 @@ add("C17", "model_checking",
     "Trusted: the reference calculators in mc/worlds/gmx.py (integer Vault rule; v2 in floats, 1e-9). v2 round trips with protocol-paid positive impact above the fees are counted, not judged. One rounding step of the token is allowed on minted / redeemed amounts.",
     "DESIGN.md §5 C17")
 
+add("C01", "model_checking",
+    "actuator-driven exploration: every world (14 market mixes / quote configurations) run by the real Actuator.run under every script of the bound (seeded portfolio + 1-2 operations x bar x hook); every bar's recorded AccountStatus compared with a reference valuation from raw fields in exact arithmetic",
+    "Worlds: pool quoted in token0 / token1, pool quoted in WETH with the account in USD, Aave (frozen and over a price / index path with a liquidating bar), Squeeth + oSQTH pool with LP positions lent to vaults (mark = index, mark != index, wallet without oSQTH entry), options alone and beside a minutely pool (open and closed bars), GLP, GM (two pool shapes), pool + Aave in one USD account with USDC != 1 USD. At every bar: asset_value = balances x prices, every market's net_value = value of its raw positions under that bar's data, net_value = wallet + markets converted by the market's quote-token price, a lent LP position counted once (in the vault, at the index price).",
+    "Trusted: the adapters' ref_value functions (mc/worlds/*.py). Tolerances reproduce the implementation's own rounding: Aave 2e-4 absolute, float paths 1e-9 relative, pool math three smallest units per position and token.",
+    "DESIGN.md §5 C01")
+
 _PENDING = "check not built yet in this round (planned: bounded exhaustive exploration, see DESIGN.md §5); listed here until its check is registered"
 for _i in range(1, 21):
     _p = f"C{_i:02d}"
